@@ -11,6 +11,11 @@ design = open(os.path.join(here, "DESIGN.md"), encoding="utf-8").read()
 explored = {}
 for m in re.finditer(r"^\| (C\d\d)-[A-Z] ([^|]*)\|([^|]*)\|", design, re.M):
     explored.setdefault(m.group(1), []).append(f"- {m.group(2).strip()}  [needed: {m.group(3).strip()}]")
+# changes that were caught as they came are listed in prose: "C03-M / C03-N (one-shot `map`; early return on an empty ChargeConj table)"
+for m in re.finditer(r"(C\d\d)-[A-Z](?: / C\d\d-[A-Z])? \(([^)]*)\)", design):
+    for part in m.group(2).split(";"):
+        if part.strip() and len(part) < 200:
+            explored.setdefault(m.group(1), []).append(f"- {part.strip()}")
 os.makedirs(root, exist_ok=True)
 for p in props:
     pid = p["id"]
